@@ -3,6 +3,7 @@ from check import run_diff_property
 CFG = dict(
     streams=[('frame', 2500, 40000)],
     oracle_ops={'frt', 'frtmeta', 'frdspec'},
+    self_evident=lambda o, i: i.startswith('panic'),
     rule=("every Write* method with boundary parameters (stream ids 0, 1, 2^31-1, 2^31, 2^32-1; payloads 0..16384 bytes; padding "
           "0..255 and 256, non-zero pad bytes; priority with reserved bit; settings incl. INITIAL_WINDOW_SIZE 2^31; window increments "
           "0, 1, 2^31-1, 2^31; raw frames of every type 0..10 and 200 with arbitrary flags and short/odd lengths): written bytes "
